@@ -15,11 +15,20 @@ VARIANTS = ['none', 'correct', 'corrupted', 'other_spi', 'other_nonce', 'other_a
             'two_first_right', 'missing_ke', 'missing_nonce']
 
 
-def junk(p, n):
-    """n half-open entries at B: IKE_SA_INIT requests without the I flag stay INITIAL (see DESIGN observations)"""
+def junk(p, n, base, secret):
+    """n half-open entries at B: copies of A's real IKE_SA_INIT request under other initiator SPIs (each is answered
+    and stays INIT_RES_SENT); once the threshold is crossed the copies carry the cookie B would ask for.
+    (Until fix 73b0c79 a bare header without the I flag was enough, finding F20.)"""
+    from message import Message, Payload, PayloadNOTIFY
     for k in range(n):
-        hdr = bytes([0x70 + k]) * 8 + bytes(8) + bytes([0, 0x20, 34, 0x00]) + bytes(4) + (28).to_bytes(4, 'big')
-        p.B.datagram(IPB, IPA, hdr)
+        m = Message.parse(base)
+        m.spi_i = bytes([0x70 + k]) * 8
+        if sum(1 for s in p.B.controller.ike_sas if int(s.state) < 10) + 1 > 10:
+            nonce = m.get_payload(Payload.Type.NONCE).nonce
+            ck = hmac.new(secret, m.spi_i + nonce + ip_address(IPA).packed, hashlib.sha256).digest()
+            m.payloads.insert(0, PayloadNOTIFY(0, PayloadNOTIFY.Type.COOKIE, b'', ck))
+        p.B.datagram(IPB, IPA, bytes(m.to_bytes()))
+    p.sim.net.clear()
 
 
 def build(variant, base, cookie, rng):
@@ -81,7 +90,9 @@ def observe(ctx, seed, h, variant):
         m0 = Message.parse(base)
         nonce = m0.get_payload(Payload.Type.NONCE).nonce
         cookie = hmac.new(secret, m0.spi_i + nonce + ip_address(IPA).packed, hashlib.sha256).digest()
-        junk(p, h)
+        junk(p, h, base, secret)
+        if sum(1 for s_ in p.B.controller.ike_sas if int(s_.state) < 10) != h:
+            raise RuntimeError(f'C18 harness: {h} half-open entries wanted')
         data, src = build(variant, base, cookie, rng)
         m = Message.parse(data)
         table_before = len(p.B.controller.ike_sas)
@@ -203,9 +214,11 @@ def initiator_side(ctx, seed):
     from message import Message, Payload, PayloadNOTIFY
     f = []
     with Pair(seed=seed) as p:
-        junk(p, 11)
         sent = p.do(['acquire', 'A', 80])
         first = sent[0][2]
+        p.do(['flood', 'B', 11])
+        if sum(1 for s_ in p.B.controller.ike_sas if int(s_.state) < 10) != 10:
+            raise RuntimeError('C18 harness: flood did not leave 10 half-open entries')
         p.do(['deliver', 0])                 # B answers with COOKIE
         if not p.sim.net:
             return [Failure('property', 'cookie:no-cookie-reply', 'no reply', {'seed': seed, 'initiator': True})]
@@ -235,6 +248,43 @@ def initiator_side(ctx, seed):
     return f
 
 
+def ignored_requests(ctx, seed):
+    """F20: an IKE_SA_INIT request the responder ignores (Message ID other than 0, or no initiator flag) used to leave
+    the IkeSa object created for it in the table for ever, in state INITIAL - per-datagram state without any cookie,
+    and at no cost to the sender (28 bytes)."""
+    f = []
+    rng = random.Random(seed)
+    with Pair(seed=seed) as p:
+        sent = p.do(['acquire', 'A', 80])
+        p.sim.net.clear()
+        base = sent[0][2]
+        shapes = []
+        for k in range(12):
+            spi = bytes(rng.getrandbits(8) for _ in range(8))
+            bare = spi + bytes(8) + bytes([0, 0x20, 34, 0x00]) + bytes(4) + (28).to_bytes(4, 'big')
+            noflag = spi + base[8:19] + bytes([base[19] & ~0x08 & 0xFF]) + base[20:]
+            badid = spi + base[8:20] + (1 + rng.randrange(9)).to_bytes(4, 'big') + base[24:]
+            shapes += [('bare header without the I flag', bare), ('real request without the I flag', noflag),
+                       ('real request with Message ID > 0', badid)]
+        before = len(p.B.controller.ike_sas)
+        dh0, n0 = p.B.dh_calls, p.B.kernel.n
+        for what, data in shapes:
+            try:
+                out = p.B.datagram(IPB, IPA, data)
+            except LoopEscape as ex:
+                return [Failure('property', 'loop:escaped-exception', f'F20: {ex.exc!r}', {'regression': 'F20', 'seed': seed})]
+            ctx.case({'ignored_request': what}, nontrivial=True, sample=False)
+            left = [int(s.state) for s in p.B.controller.ike_sas]
+            if len(left) != before or out or p.B.dh_calls != dh0 or p.B.kernel.n != n0:
+                f.append(Failure('property', 'cookie:ignored-request-leaves-state',
+                                 f'F20 is back: an ignored IKE_SA_INIT request ({what}, {len(data)} bytes, no cookie) left '
+                                 f'the responder table at {left} (was {before} entries), replies {len(out)}, DH '
+                                 f'{p.B.dh_calls - dh0}, netlink {p.B.kernel.n - n0}',
+                                 {'regression': 'F20', 'seed': seed}))
+                break
+    return f
+
+
 def oracle(ctx, deep):
     fails = []
     obs = getattr(ctx, 'obs', None)
@@ -248,12 +298,15 @@ def oracle(ctx, deep):
         if len(fails) > 4:
             break
     fails += initiator_side(ctx, ctx.rng.getrandbits(32))
+    fails += ignored_requests(ctx, ctx.rng.getrandbits(32))
     return fails
 
 
 def replay(ctx, obj):
     if obj.get('initiator'):
         return initiator_side(ctx, obj['seed'])
+    if obj.get('regression') == 'F20':
+        return ignored_requests(ctx, obj['seed'])
     if 'variant' in obj:
         return judge(observe(ctx, obj['seed'], obj['h'], obj['variant']))
     return []
